@@ -1045,6 +1045,68 @@ func c13R4(c *Ctx) {
 	}
 }
 
+// c13SeekableSize: the size handed to the seekable-reader constructor in
+// registry/remote is the Size of a descriptor of the function (the one it was
+// given / hands back), or the response's Content-Length behind the equality
+// test with such a Size, or — in a helper — a parameter for which every caller
+// passes such a value.  (Seek clamps against this size: a -1 or a wrong length
+// makes SeekEnd fail and reads after Seek return nothing.)
+func c13SeekableSize(c *Ctx, rule string, ctor *ssa.Function) {
+	var sizeOK func(fn *ssa.Function, v ssa.Value, at ssa.Instruction, depth int) (bool, string)
+	sizeOK = func(fn *ssa.Function, v ssa.Value, at ssa.Instruction, depth int) (bool, string) {
+		size := c13FieldLoads(fn, c13PkgOCI, "Descriptor", "Size", nil)
+		cl := c13FieldLoads(fn, c13PkgHTTP, "Response", "ContentLength", nil)
+		eq, _ := c13EqualEdges(fn, cl, size)
+		for _, lf := range c13Leaves(v) {
+			x := strip(lf.Val)
+			switch {
+			case size[x] || size[lf.Val]:
+			case cl[x] || cl[lf.Val]:
+				if len(eq) == 0 || c13ChainReach(fn.Blocks[0], 0, lf.Edges, at, newCut().Edges(eq...)) {
+					return false, "the response's Content-Length is used as the content size without having been found equal to the descriptor's Size (it is -1 for a chunked response)"
+				}
+			default:
+				prm, isParam := x.(*ssa.Parameter)
+				if !isParam || depth <= 0 {
+					return false, "the size (" + describe(x) + ") is not the Size of the descriptor the function was given / returns"
+				}
+				idx := -1
+				for i, q := range fn.Params {
+					if q == prm {
+						idx = i
+					}
+				}
+				callers := 0
+				for _, g := range c.P.FuncsOfPkg(c13PkgRemote) {
+					for _, call := range c13CallsToFn(g, fn) {
+						callers++
+						if ok, why := sizeOK(g, call.Common().Args[idx], call.(ssa.Instruction), depth-1); !ok {
+							return false, "caller " + FnName(g) + ": " + why
+						}
+					}
+				}
+				if callers == 0 {
+					return false, "the size is a parameter and no caller was found"
+				}
+			}
+		}
+		return true, ""
+	}
+	n := 0
+	for _, f := range c.P.FuncsOfPkg(c13PkgRemote) {
+		for k, call := range c13CallsToFn(f, ctor) {
+			n++
+			args := call.Common().Args
+			ok, why := sizeOK(f, args[len(args)-1], call.(ssa.Instruction), 2)
+			c.Check(rule, fmt.Sprintf("%s|seekable-size#%d", FnName(f), k+1), call.Pos(), ok,
+				ifelse(ok, "the seekable reader is given the Size of the descriptor of this content", "the seekable reader is constructed with a wrong content size: "+why))
+		}
+	}
+	if n == 0 {
+		c.LostAnchor(rule, "construction of the seekable reader (httputil.NewReadSeekCloser) in ~/registry/remote")
+	}
+}
+
 // c13ExchangeFnOf: the function performing f's single HTTP exchange: f itself
 // or an in-module helper it (transitively, to the given depth) calls; top =
 // the calls in f that lead there.
@@ -1074,7 +1136,7 @@ func c13ExchangeFnOf(f *ssa.Function, depth int) (E *ssa.Function, top []ssa.Cal
 
 func c13Seek(c *Ctx) {
 	const RS = "C13.R2.seek"
-	c.Expect(RS, 5)
+	c.Expect(RS, 6)
 	// role: the type returned by httputil.NewReadSeekCloser
 	ctor := c.P.Fn("internal/httputil", "NewReadSeekCloser")
 	if ctor == nil {
@@ -1121,6 +1183,7 @@ func c13Seek(c *Ctx) {
 		return
 	}
 	pkg := "internal/httputil"
+	c13SeekableSize(c, RS, ctor)
 	// Seek: the range request (in Seek itself or in a helper it calls, depth ≤ 3) is gated by 206
 	E, top := c13ExchangeFnOf(seek, 3)
 	if E == nil {
@@ -1241,6 +1304,10 @@ func c13Seek(c *Ctx) {
 }
 
 var c13Mutants = []Mutant{
+	{Name: "seekable-size-from-content-length", File: "registry/remote/repository.go",
+		Old:    "\t\t\treturn desc, httputil.NewReadSeekCloser(s.repo.client(), req, resp.Body, desc.Size), nil",
+		New:    "\t\t\treturn desc, httputil.NewReadSeekCloser(s.repo.client(), req, resp.Body, resp.ContentLength), nil",
+		Expect: "C13.R2.seek"},
 	{Name: "upload-put-query-rebuilt", File: "registry/remote/repository.go",
 		Old:    "\tq := req.URL.Query()\n\tq.Set(\"digest\", expected.Digest.String())\n\treq.URL.RawQuery = q.Encode()",
 		New:    "\treq.URL.RawQuery = \"digest=\" + expected.Digest.String()",
